@@ -12,7 +12,7 @@ import (
 
 func init() {
 	streams["MALFORMED"] = streamMalformed
-	streamRules["MALFORMED"] = "every decoder entry point of C16 on malformed 512-byte share lists (valid squares and sequences with corrupted namespaces, info bytes, sequence lengths, reserved bytes, truncated / reordered / duplicated shares, hand-assembled squares whose wrapped PFBs carry wrong share indexes or whose inner tx lies about blob sizes) and on malformed byte strings; outcome class (ok/err/panic) + value digest compared with the panic-aware model; oracle: no call panics; non-trivial = distinct corrupted list"
+	streamRules["MALFORMED"] = "every decoder entry point of C16 on malformed 512-byte share lists (valid squares and sequences with corrupted namespaces, info bytes, sequence lengths, reserved bytes, truncated / reordered / duplicated shares, hand-assembled squares whose wrapped PFBs carry wrong share indexes or whose inner tx lies about blob sizes) and on malformed byte strings; outcome class (ok/err/panic) + value digest compared with the panic-aware model; oracle: no call panics; non-trivial = distinct corrupted list Added: nil and empty lists, padding between a sequence start and its continuation, cooperating index/size lies at the end of the square."
 }
 
 func (c *Ctx) corruptShares(list [][]byte) [][]byte {
